@@ -4,10 +4,23 @@ From HostdLock Require Import Model Proofs.
 From Coq Require Import Lia ZifyBool ZifyN ZifyNat.
 Local Open Scope Z_scope.
 
-Definition holds (i : cid) (th : thread) : Prop := tpc th = Holding i \/ tpc th = Releasing i.
+(* the session has the lock of contract i: it returned from Lock with it (Holding), or it is
+   inside a wrapper that was handed the lock and has not yet run its release (the Manager-level
+   error path, the body and the deferred release of an integrity check) *)
+Definition holds (i : cid) (th : thread) : Prop :=
+  tpc th = Holding i \/ tpc th = Releasing i
+  \/ (exists v, tpc th = Checking i v) \/ (exists r, tpc th = Deferred i r).
 
 Lemma holds_hz i th : holds i th -> hz i (tpc th) = 1.
-Proof. intros [E|E]; rewrite E; cbn; rewrite N.eqb_refl; auto. Qed.
+Proof. intros [E|[E|[[v E]|[r E]]]]; rewrite E; cbn; rewrite N.eqb_refl; auto. Qed.
+
+Lemma hz_holds i th : hz i (tpc th) = 1 -> holds i th.
+Proof.
+  unfold holds. destruct (tpc th); cbn; try lia; destruct (N.eqb_spec i i0); try lia; subst; eauto.
+Qed.
+
+Lemma acq_pc_holds i th : acq_pc i (tpc th) -> holds i th.
+Proof. unfold holds. intros [E|[E|[v E]]]; eauto. Qed.
 
 (** * The shape of a step: only the acting session changes, and its pc moves along the code *)
 Definition trans_ok (s : state) (a : action) (p p' : pc) : Prop :=
@@ -16,13 +29,19 @@ Definition trans_ok (s : state) (a : action) (p p' : pc) : Prop :=
       p = Idle /\ (((p' = Holding i \/ p' = Releasing i) /\ tlookup i (tbl s) = None)
                    \/ (exists a0, p' = Waiting i a0 /\ tlookup i (tbl s) = Some a0)
                    \/ p' = Panicked)
+  | ACheck _ i _ _ _ =>
+      p = Idle /\ (((p' = Releasing i \/ exists v, p' = Checking i v) /\ tlookup i (tbl s) = None)
+                   \/ (exists a0, p' = Waiting i a0 /\ tlookup i (tbl s) = Some a0)
+                   \/ p' = Panicked)
   | ALockRefused _ => p = Idle /\ p' = Idle
   | ACtxDone _ => p' = p
-  | ARecv _ => exists i a0, p = Waiting i a0 /\ (p' = Holding i \/ p' = Releasing i)
+  | ARecv _ => exists i a0, p = Waiting i a0 /\ (p' = Holding i \/ p' = Releasing i \/ exists v, p' = Checking i v)
   | ACancelChosen _ => exists i a0, p = Waiting i a0 /\ p' = Cancelling i a0
   | ACancelCommit _ => exists i a0, p = Cancelling i a0 /\ (p' = Idle \/ p' = Panicked)
   | AUnlock _ => exists i, p = Holding i /\ (p' = Idle \/ (exists a0, p' = Blocked i a0) \/ p' = Panicked)
   | AErrUnlock _ => exists i, p = Releasing i /\ (p' = Idle \/ (exists a0, p' = Blocked i a0) \/ p' = Panicked)
+  | ABody _ => exists i v, p = Checking i v /\ exists r, p' = Deferred i r
+  | ADeferUnlock _ => exists i r, p = Deferred i r /\ (p' = Idle \/ (exists a0, p' = Blocked i a0) \/ p' = Panicked)
   | ASendDone _ => exists i a0, p = Blocked i a0 /\ p' = Idle
   end.
 
@@ -35,7 +54,7 @@ Lemma step_shape s a s' :
                  /\ trans_ok s a (tpc th) (tpc th').
 Proof.
   intros Hs.
-  destruct a; cbn [step act_tid] in *; unfold unlock_cs, set_th, acquired in *;
+  destruct a; cbn [step act_tid] in *; unfold lock_call, unlock_cs, set_th, acquired in *;
     repeat (dm Hs; try discriminate); inversion Hs; subst; clear Hs; cbn [ths];
     eexists; eexists; (split; [reflexivity|]);
     (split; [first [reflexivity | symmetry; apply upd_same; eassumption]|]);
@@ -77,7 +96,7 @@ Qed.
 
 (** * 2. The reference count *)
 Definition is_holder (i : cid) (p : pc) : bool :=
-  match p with Holding j | Releasing j => (i =? j)%N | _ => false end.
+  match p with Holding j | Releasing j | Checking j _ | Deferred j _ => (i =? j)%N | _ => false end.
 Definition is_waiter (i : cid) (p : pc) : bool :=
   match p with Waiting j _ => (i =? j)%N | _ => false end.
 Definition is_canceller (i : cid) (p : pc) : bool :=
@@ -169,7 +188,8 @@ Definition recv_on (i : cid) (s : state) (a : action) : Z :=
   end.
 Definition release_on (i : cid) (s : state) (a : action) : Z :=
   match a with
-  | AUnlock t | AErrUnlock t => match nth_error (ths s) t with Some th => hz i (tpc th) | None => 0 end
+  | AUnlock t | AErrUnlock t | ADeferUnlock t =>
+      match nth_error (ths s) t with Some th => hz i (tpc th) | None => 0 end
   | _ => 0
   end.
 
@@ -189,7 +209,7 @@ Proof.
   assert (Hok : ok_pc (tpc th)) by (eapply (inv_sane HI); eauto).
   destruct (Z.leb_spec 1 (holders i s + waiters i s + cancellers i s));
   destruct (Z.leb_spec 1 (holders i s' + waiters i s' + cancellers i s'));
-  destruct a as [t j d b|t|t|t|t|t|t|t|t]; cbn [trans_ok recv_on release_on act_tid] in *; rewrite ?Hn;
+  destruct a as [t j d b|t j d b v|t|t|t|t|t|t|t|t|t|t]; cbn [trans_ok recv_on release_on act_tid] in *; rewrite ?Hn;
   repeat match goal with
          | H : _ /\ _ |- _ => destruct H
          | H : exists _, _ |- _ => destruct H
@@ -268,23 +288,26 @@ Qed.
 
 Lemma release_completes k s t th i r (a : action) :
   reachable k s -> nth_error (ths s) t = Some th ->
-  (a = AUnlock t /\ tpc th = Holding i /\ r = RNone) \/ (a = AErrUnlock t /\ tpc th = Releasing i /\ r = RMgrErr) ->
+  (a = AUnlock t /\ tpc th = Holding i /\ r = RNone) \/ (a = AErrUnlock t /\ tpc th = Releasing i /\ r = RMgrErr)
+  \/ (a = ADeferUnlock t /\ tpc th = Deferred i r) ->
   exists s' th', step s a = Some s' /\ nth_error (ths s') t = Some th' /\ tpc th' = Idle /\ tret th' = r.
 Proof.
   intros Hr Hn Hcase. pose proof (reachable_inv _ _ Hr) as HI.
   pose proof (sane_mutex_free _ (inv_sane HI)) as Hmf.
   destruct (unlock_cs_total s t th i r) as (s' & Hu).
   assert (Hs : step s a = Some s').
-  { destruct Hcase as [(-> & Hpc & ->)|(-> & Hpc & ->)]; cbn [step]; rewrite Hn, Hpc, Hmf; auto. }
+  { destruct Hcase as [(-> & Hpc & ->)|[(-> & Hpc & ->)|(-> & Hpc)]]; cbn [step]; rewrite Hn, Hpc, Hmf; auto. }
   pose proof (step_preserves_inv _ _ _ HI Hs) as HI'.
   destruct (step_shape _ _ _ Hs) as (th0 & th' & Hn0 & Hths & Htr).
-  assert (act_tid a = t) by (destruct Hcase as [(-> & _)|(-> & _)]; reflexivity).
+  assert (act_tid a = t) by (destruct Hcase as [(-> & _)|[(-> & _)|(-> & _)]]; reflexivity).
   rewrite H in *. rewrite Hn in Hn0. inversion Hn0; subst th0.
   assert (Hn' : nth_error (ths s') t = Some th') by (rewrite Hths; eapply nth_error_upd_eq; eauto).
   pose proof (inv_sane HI' _ _ Hn') as Hok.
   assert (Hidle : tpc th' = Idle).
-  { destruct Hcase as [(-> & Hpc & _)|(-> & Hpc & _)]; cbn [trans_ok] in Htr;
-      destruct Htr as (j & _ & [E|[(a0 & E)|E]]); auto; rewrite E in Hok; contradiction. }
+  { destruct Hcase as [(-> & Hpc & _)|[(-> & Hpc & _)|(-> & Hpc)]]; cbn [trans_ok] in Htr.
+    - destruct Htr as (j & _ & [E|[(a0 & E)|E]]); auto; rewrite E in Hok; contradiction.
+    - destruct Htr as (j & _ & [E|[(a0 & E)|E]]); auto; rewrite E in Hok; contradiction.
+    - destruct Htr as (j & q & _ & [E|[(a0 & E)|E]]); auto; rewrite E in Hok; contradiction. }
   exists s', th'. repeat split; auto. eapply unlock_cs_ret; eauto.
 Qed.
 
@@ -297,6 +320,25 @@ Proof. intros. eapply release_completes; eauto. Qed.
 Theorem manager_error_path_releases k s t th i :
   reachable k s -> nth_error (ths s) t = Some th -> tpc th = Releasing i ->
   exists s' th', step s (AErrUnlock t) = Some s' /\ nth_error (ths s') t = Some th' /\ tpc th' = Idle /\ tret th' = RMgrErr.
+Proof. intros. eapply release_completes; eauto. Qed.
+
+(* CheckIntegrity / V2CheckIntegrity: the body does not touch the lock and ends in the return
+   statement its root checks select ... *)
+Theorem check_body_runs k s t th i v :
+  reachable k s -> nth_error (ths s) t = Some th -> tpc th = Checking i v ->
+  exists s' th', step s (ABody t) = Some s' /\ nth_error (ths s') t = Some th'
+                 /\ tpc th' = Deferred i (if v then RNil else RMgrErr)
+                 /\ tbl s' = tbl s /\ heap s' = heap s.
+Proof.
+  intros Hr Hn Hpc. eexists; eexists. cbn [step]. rewrite Hn, Hpc. split; [reflexivity|].
+  unfold set_th; cbn [ths tbl heap]. split; [eapply nth_error_upd_eq; eauto|]. auto.
+Qed.
+
+(* ... and whichever it is, the deferred release runs, finds the lock held by this very session,
+   neither blocks nor panics, and the check returns what the body selected *)
+Theorem check_deferred_release_completes k s t th i r :
+  reachable k s -> nth_error (ths s) t = Some th -> tpc th = Deferred i r ->
+  exists s' th', step s (ADeferUnlock t) = Some s' /\ nth_error (ths s') t = Some th' /\ tpc th' = Idle /\ tret th' = r.
 Proof. intros. eapply release_completes; eauto. Qed.
 
 (** * 6. Progress *)
@@ -312,7 +354,7 @@ Proof.
   assert (a1 = a) by (pose proof (inv_ptr HI _ _ _ _ Hn (or_introl Hpc)); congruence). subst a1.
   assert (Et : (0 <? ltok o) = true) by lia.
   eexists; exists (acquired th i). cbn [step]. rewrite Hn, Hpc, Hh, Et. split; [reflexivity|].
-  cbn [ths]. split; [eapply nth_error_upd_eq; eauto|]. apply acquired_pc.
+  cbn [ths]. split; [eapply nth_error_upd_eq; eauto|]. apply acq_pc_holds, acquired_pc.
 Qed.
 
 (* a waiter whose context has ended can always leave, and returns the context's error *)
@@ -340,7 +382,10 @@ Qed.
 
 (* the internal steps terminate: every one of them decreases this measure *)
 Definition pc_weight (p : pc) : Z :=
-  match p with Waiting _ _ => 4 | Releasing _ => 3 | Cancelling _ _ => 2 | Blocked _ _ => 1 | _ => 0 end.
+  match p with
+  | Waiting _ _ => 4 | Releasing _ | Checking _ _ => 3 | Cancelling _ _ | Deferred _ _ => 2
+  | Blocked _ _ => 1 | _ => 0
+  end.
 Definition measure (s : state) : Z := sumz pc_weight (ths s).
 
 Lemma pc_weight_nonneg p : 0 <= pc_weight p.
@@ -379,7 +424,7 @@ Proof.
   assert (Hlt : (act_tid a < length (ths s))%nat) by (apply nth_error_Some; congruence).
   unfold enabled_internal. apply in_flat_map. exists (act_tid a). split; [apply in_seq; lia|].
   apply in_flat_map. exists a. split.
-  - destruct a; cbn in *; try discriminate; auto 6.
+  - destruct a; cbn in *; try discriminate; auto 9.
   - rewrite Hs. left; auto.
 Qed.
 
@@ -412,7 +457,7 @@ Theorem quiescent_shape k s :
     end.
 Proof.
   intros Hr Hq t th Hn. pose proof (reachable_inv _ _ Hr) as HI.
-  destruct (tpc th) as [|i a|i a|i|i|i a|] eqn:Hpc; auto.
+  destruct (tpc th) as [|i a|i a|i|i|i v|i r|i a|] eqn:Hpc; auto.
   - split.
     + destruct (tdone th) eqn:Hd; auto. exfalso.
       destruct (cancelled_waiter_can_choose k s t th i a Hr Hn Hpc Hd) as (s' & _ & Hs & _).
@@ -426,6 +471,10 @@ Proof.
     rewrite (quiescent_no_internal _ (ACancelCommit t) Hq eq_refl) in Hs. discriminate.
   - destruct (manager_error_path_releases k s t th i Hr Hn Hpc) as (s' & _ & Hs & _).
     rewrite (quiescent_no_internal _ (AErrUnlock t) Hq eq_refl) in Hs. discriminate.
+  - destruct (check_body_runs k s t th i v Hr Hn Hpc) as (s' & _ & Hs & _).
+    rewrite (quiescent_no_internal _ (ABody t) Hq eq_refl) in Hs. discriminate.
+  - destruct (check_deferred_release_completes k s t th i r Hr Hn Hpc) as (s' & _ & Hs & _).
+    rewrite (quiescent_no_internal _ (ADeferUnlock t) Hq eq_refl) in Hs. discriminate.
   - pose proof (inv_sane HI _ _ Hn) as Hok. rewrite Hpc in Hok. exact Hok.
   - pose proof (inv_sane HI _ _ Hn) as Hok. rewrite Hpc in Hok. exact Hok.
 Qed.
@@ -434,7 +483,7 @@ Qed.
 (* session is in a call on contract i or holds it *)
 Definition attached (i : cid) (p : pc) : Prop :=
   match p with
-  | Waiting j _ | Cancelling j _ | Holding j | Releasing j => j = i
+  | Waiting j _ | Cancelling j _ | Holding j | Releasing j | Checking j _ | Deferred j _ => j = i
   | _ => False
   end.
 
@@ -479,7 +528,20 @@ Theorem lock_immediate_when_no_entry k s t th i d b :
 Proof.
   intros Hr Hn Hpc Hl. pose proof (reachable_inv _ _ Hr) as HI.
   pose proof (sane_mutex_free _ (inv_sane HI)) as Hmf.
-  eexists; eexists. cbn [step]. rewrite Hn, Hpc, Hmf, Hl. split; [reflexivity|].
+  eexists; eexists. cbn [step]. unfold lock_call. rewrite Hn, Hpc, Hmf, Hl. split; [reflexivity|].
+  cbn [ths]. split; [eapply nth_error_upd_eq; eauto|]. unfold acquired; cbn. destruct b; reflexivity.
+Qed.
+
+(* the same for an integrity check: it is inside its body at once (or, when the Manager-level
+   lock call fails, on that call's error path) *)
+Theorem check_immediate_when_no_entry k s t th i d b v :
+  reachable k s -> nth_error (ths s) t = Some th -> tpc th = Idle -> tlookup i (tbl s) = None ->
+  exists s' th', step s (ACheck t i d b v) = Some s' /\ nth_error (ths s') t = Some th'
+                 /\ tpc th' = (if b then Releasing i else Checking i v).
+Proof.
+  intros Hr Hn Hpc Hl. pose proof (reachable_inv _ _ Hr) as HI.
+  pose proof (sane_mutex_free _ (inv_sane HI)) as Hmf.
+  eexists; eexists. cbn [step]. unfold lock_call. rewrite Hn, Hpc, Hmf, Hl. split; [reflexivity|].
   cbn [ths]. split; [eapply nth_error_upd_eq; eauto|]. unfold acquired; cbn. destruct b; reflexivity.
 Qed.
 
